@@ -362,6 +362,12 @@ def finish(pid, tier, seed, t0, st, res, level="proof", level_note=""):
         "notes": res.notes,
     }
     cov.update(res.extra)
+    if discharged == 0:
+        # no theorem was discharged on this run (the build of the property module is broken): the proof keys would
+        # claim nothing; keep the exploration counts and say so
+        for k in ("obligations", "discharged"):
+            cov.pop(k, None)
+        cov["proof_obligations_discharged_on_this_run"] = 0
     ev = {
         "property_id": pid, "tier": tier, "seed": seed, "level": level,
         "coverage": cov,
